@@ -39,6 +39,8 @@ CallStep(st, fr) ==
          THEN Push([newprobe(0) EXCEPT !.nodes[n].g = TRUE], <<Sub(nd.c, pn), F0("dropv")>>)
          ELSE IF nd.b = 3 /\ t = "N"                \* reaction 3: on every item subscribe a fresh probe to the same pipeline
          THEN Push(newprobe(0), <<Sub(nd.c, pn), F0("dropv")>>)
+         ELSE IF nd.b = 5 /\ t = "N" /\ ~nd.g       \* reaction 5: on the first item send one more item into hot subject 1 (a feedback loop)
+         THEN Push([st1 EXCEPT !.nodes[n].g = TRUE], SubjEmit(st1, 1, "N", I(W(v) + 10)))
          ELSE IF nd.b = 4 /\ t = "N"                \* reaction 4: peek() the BehaviorSubject from inside the callback, record what it says
          THEN LET vn == VNode(st1, PA(nd.c)) IN
               IF RHeld(st1.nodes[vn]) THEN Fault(st1, "reentry")
